@@ -7,7 +7,7 @@ ROOT = os.path.dirname(os.path.dirname(os.path.abspath(__file__)))
 sys.path.insert(0, os.path.join(ROOT, 'vx'))
 import propinfo
 EDITS = {
- 'rename-local-ret': ('src/loop_logic.rs', [('let mut ret = result?;', 'let mut action = result?;'), ('if let PostAction::Continue = ret {\n                    ret = pending_action;', 'if let PostAction::Continue = action {\n                    action = pending_action;'), ('match ret {', 'match action {')]),
+ 'rename-local-ret': ('src/loop_logic.rs', [('let ret = match result {', 'let action = match result {'), ('                match ret {\n                    PostAction::Reregister', '                match action {\n                    PostAction::Reregister')]),
  'reorder-generic-register': ('src/sources/generic.rs', [('        self.poller = Some(poll.poller().clone());\n        self.token = Some(token);\n\n        Ok(())\n    }\n\n    fn reregister', '        self.token = Some(token);\n        self.poller = Some(poll.poller().clone());\n\n        Ok(())\n    }\n\n    fn reregister')]),
  'extra-trace': ('src/loop_logic.rs', [('        let slot = sources.vacant_entry();\n', '        let slot = sources.vacant_entry();\n        trace!("picked a slot");\n')]),
  'comments-whitespace': ('src/token.rs', [('    pub(crate) fn same_source_as(self, other: TokenInner) -> bool {', '    // two tokens belong to the same source registration\n    pub(crate) fn same_source_as(self,   other: TokenInner) -> bool {')]),
